@@ -1,6 +1,6 @@
 """Per-property checks.  Every check: extract (tie A) -> proofs + axiom audit -> build harness ->
 corpus + generated correspondence cases + the property's own oracle -> evidence -> exit status."""
-import argparse, itertools, json, os, sys, time
+import argparse, itertools, json, os, sys, tempfile, time
 from . import common as C
 from . import l2
 
@@ -39,7 +39,8 @@ def prepare(run, need_harness=True, need_cli=False):
         if need_cli:
             ok, out = C.build_cli()
             if not ok:
-                raise SystemExit('CLI build failed:\n' + out[-3000:])
+                run.violation(dict(kind='tree-does-not-build', note='cargo build of /repo fails: nothing can be evaluated', output_tail=out[-3000:]), no_input=True)
+                return False
     if run.model_build_error:
         run.violation(dict(kind='model-does-not-build', note='a generated definition or a model file no longer elaborates',
                            lean_output=run.model_build_error), no_input=True)
@@ -2650,6 +2651,55 @@ def check_C18(run):
                 if why and len(fails) < 3:
                     fails.append(dict(layer='L4', why=why, position=pos, string=hs, args=args, rc=r['rc'], stderr=r['err'][-800:], tree='src/{f,\u00e9}'))
                 shutil.rmtree(dst, ignore_errors=True)
+        # file lengths near the top of the 64-bit range (sparse files; only where the host has a file system that can hold them: tmpfs, xfs, btrfs):
+        # listing them, summing them for the statistics and the progress bar, finding them up to date, deleting them — never reading them
+        huge_root = None
+        for cand in ['/dev/shm', sb.dir]:
+            try:
+                t_ = tempfile.mkdtemp(prefix='rjv-huge-', dir=cand)
+                with open(t_ + '/probe', 'wb') as f: f.truncate(2 ** 63 - 1)
+                huge_root = t_; break
+            except OSError:
+                shutil.rmtree(t_, ignore_errors=True)
+        run.count('huge-files:' + ('host-can-hold-them' if huge_root else 'host-cannot-hold-them'))
+        if huge_root:
+            try:
+                os.remove(huge_root + '/probe')
+                HUGE = [2 ** 63 - 1, 10 ** 18, 2 ** 62, 5 * 10 ** 17, 2 ** 40]
+                def sparse(dir_, sizes, t=1_600_000_000):
+                    os.makedirs(dir_, exist_ok=True)
+                    for k_, z in enumerate(sizes):
+                        with open(f'{dir_}/f{k_}', 'wb') as f: f.truncate(z)
+                        os.utime(f'{dir_}/f{k_}', (t, t))
+                trials = []
+                for k_, sizes in enumerate([[HUGE[0]] * 3, [HUGE[0]] * 2, [HUGE[1]], [HUGE[1]] * 19, [HUGE[2]] * 4, [HUGE[3], HUGE[4]], [rng.choice(HUGE) for _ in range(rng.randint(1, 6))]]):
+                    for how in ('dry-run', 'up-to-date', 'delete'):
+                        for extra in ([], ['--stats'], ['--stats', '--quiet'], ['--no-progress']):
+                            trials.append((k_, sizes, how, extra))
+                if not thorough:
+                    trials = [t_ for i_, t_ in enumerate(trials) if i_ % 3 == 0 or t_[0] < 2]
+                for k_, sizes, how, extra in trials:
+                    b_ = f'{huge_root}/h'; shutil.rmtree(b_, ignore_errors=True)
+                    src, dst = b_ + '/src', b_ + '/dst'
+                    if how == 'delete':
+                        os.makedirs(src); sparse(dst, sizes)
+                    else:
+                        sparse(src, sizes)
+                        if how == 'up-to-date': sparse(dst, sizes)
+                    args = [src + '/', dst + '/'] + extra + (['--dry-run'] if how == 'dry-run' else [])
+                    r = l4.run_cli(args, env=sb.env({'RJRSSYNC_TEST_PROMPT_RESPONSE': ''}), timeout=60, cwd=b_)
+                    run.case(('huge', tuple(sizes), how, tuple(extra)), True, sample=dict(layer='L4', file_lengths=sizes, how=how, extra=extra, rc=r['rc']) if k_ == 0 and not extra else None)
+                    run.count(f'huge-files:{how}:rc={r["rc"]}')
+                    why = None
+                    if r['timeout']: why = 'time-out'
+                    elif r['rc'] not in (0, 2, 10, 11, 12, 18, 19): why = f'exit status {r["rc"]}' + (' (signal)' if r['rc'] is not None and r['rc'] < 0 else '')
+                    elif 'panicked at' in r['err']: why = 'panic message'
+                    if why:
+                        fails.append(dict(layer='L4', why=why, args=['<src>/', '<dst>/'] + args[2:], rc=r['rc'], stderr=r['err'][-600:], huge_files=dict(lengths=sizes, where=how),
+                                          how=f'sparse files of these lengths (truncate -s) in {"the destination, empty source" if how == "delete" else "the source" + (", the same in the destination with the same time" if how == "up-to-date" else "")}'))
+                        break
+            finally:
+                shutil.rmtree(huge_root, ignore_errors=True)
         # the recorded witness: a file dated before 1970
         base = os.path.join(sb.dir, 'pre1970'); src, dst = base + '/src', base + '/dst'
         l3.make_tree(src, [('', 'D'), ('old-file', 'F', b'x', -10**18)])
